@@ -96,6 +96,12 @@ for g in groups:
     for off in offsets:
         out.extend([HOLE0 for t in g])
 return out"""
+# variant that keeps the inversion flag of `M !q` targets on every broadcast target
+BT_SKEL_INV = """out: list[int | stim.GateTarget] = []
+for g in groups:
+    for off in offsets:
+        out.extend([stim.target_inv(HOLE0) if t.is_inverted_result_target else HOLE1 for t in g])
+return out"""
 
 TC_SKEL = """stim_circ = tsim.Circuit(program_text)._stim_circ
 mod_circ = stim.Circuit()
@@ -138,6 +144,16 @@ if not encoding:
 mod_circ = _transform_circuit(program_text, stride=HOLE0, offsets=HOLE1, used_qubits=self.used_qubits, stabilizer_generators=self.stabilizer_generators, observables=self.observables)
 self.circuit.append_from_stim_program_text(str(mod_circ))
 self.circuit.append_from_stim_program_text(str(_transform_circuit(encoding, stride=HOLE2, offsets=[HOLE3 for off in sorted(self.used_qubits)], stabilizer_generators=self.stabilizer_generators, observables=self.observables)))"""
+
+# variant that encodes only the logical qubits prepared by the current call
+INIT_SKEL_NEW = """encoding = encoding_program_text or self.encoding_program_text
+if not encoding:
+    raise ValueError('Encoding program text is required')
+new_qubits: set[int] = set()
+mod_circ = _transform_circuit(program_text, stride=HOLE0, offsets=HOLE1, used_qubits=new_qubits, stabilizer_generators=self.stabilizer_generators, observables=self.observables)
+self.used_qubits |= new_qubits
+self.circuit.append_from_stim_program_text(str(mod_circ))
+self.circuit.append_from_stim_program_text(str(_transform_circuit(encoding, stride=HOLE2, offsets=[HOLE3 for off in sorted(new_qubits)], stabilizer_generators=self.stabilizer_generators, observables=self.observables)))"""
 
 TRANS_SKEL = """mod_circ = _transform_circuit(program_text, stride=HOLE0, offsets=list(range(HOLE1)), gate_expansions=self.logical_gate_expansions, stabilizer_generators=self.stabilizer_generators, observables=self.observables)
 self.circuit.append_from_stim_program_text(str(mod_circ))"""
@@ -185,9 +201,22 @@ def structure_facts(mod: ast.Module) -> list[str]:
     if len(comps) != 1:
         raise Unsupported("broadcast_targets: expected exactly one list comprehension")
     env = {"t.value": "t", "stride": "stride", "off": "off"}
-    bt_index = _arith(comps[0].elt, env)
-    _check_skel("broadcast_targets", _skeleton(bt, [comps[0].elt]), BT_SKEL)
+    elt = comps[0].elt
+    if isinstance(elt, ast.IfExp):
+        if not (isinstance(elt.body, ast.Call) and ast.unparse(elt.body.func) == "stim.target_inv" and len(elt.body.args) == 1 and not elt.body.keywords):
+            raise Unsupported("broadcast_targets: conditional element must be stim.target_inv(<expr>) if ... else <expr>")
+        bt_index = _arith(elt.orelse, env)
+        if _arith(elt.body.args[0], env) != bt_index:
+            raise Unsupported("broadcast_targets: inverted and plain targets use different index expressions")
+        _check_skel("broadcast_targets", _skeleton(bt, [elt.body.args[0], elt.orelse]), BT_SKEL_INV)
+        keeps_inv = True
+    else:
+        bt_index = _arith(elt, env)
+        _check_skel("broadcast_targets", _skeleton(bt, [elt]), BT_SKEL)
+        keeps_inv = False
     out.append(f"Definition bt_index (t stride off : Z) : Z := {bt_index}.")
+    out.append("(* does broadcast_targets keep the inversion flag of measurement targets (M !q)? *)")
+    out.append(f"Definition bt_keeps_inversion : bool := {'true' if keeps_inv else 'false'}.")
     # ---- _transform_circuit
     tc = copy.deepcopy(fns["_transform_circuit"])
     if _sig(tc) != TC_SIG:
@@ -227,7 +256,11 @@ def structure_facts(mod: ast.Module) -> list[str]:
     prep_offsets = "[" + "; ".join(_arith(x, envn) for x in h[1].elts) + "]"
     enc_stride = _arith(h[2], envn)
     enc_off = _arith(h[3], envn)
-    _check_skel("initialize", _skeleton(ini, h), INIT_SKEL)
+    new_only = "new_qubits" in ast.unparse(ini)
+    _check_skel("initialize", _skeleton(ini, h), INIT_SKEL_NEW if new_only else INIT_SKEL)
+    out.append("(* does initialize() encode only the logical qubits prepared by the current call (true) or all qubits")
+    out.append("   ever used, i.e. re-encode blocks of earlier calls (false)? *)")
+    out.append(f"Definition init_encodes_new_only : bool := {'true' if new_only else 'false'}.")
     out.append(f"Definition init_prep_stride (n encq : Z) : Z := {prep_stride}.")
     out.append(f"Definition init_prep_offsets (n encq : Z) : list Z := {prep_offsets}.")
     out.append(f"Definition init_enc_stride (n encq : Z) : Z := {enc_stride}.")
